@@ -63,4 +63,22 @@ example : (run {} [.callStart, .startOk, .callFinish, .hsDone, .close, .finishFa
 example : (run {} [.callStart, .startOk, .callFinish, .hsDone, .finishOk, .close, .callStart, .startOk, .callFinish, .hsDone,
     .closure]).writes = 0 := by decide
 
+/-- **C19 (disconnect at any stage).**  In EVERY state, once `disconnect(force=True)` has returned no live connection is
+attached any more — so (`c19_accepts`) the next `start_connection` is accepted as soon as the attempt that was in progress,
+if any, has unwound. -/
+theorem c19_disconnect_closes (s : State) : ∀ p, (step s .disconnect).conn = some p → alive p = false := by
+  intro p h
+  cases hc : s.conn with
+  | none => simp [step, hc] at h
+  | some q => cases q <;> simp [step, hc] at h <;> (subst h; rfl)
+
+/-- … in fact at once: a closed connection that is still attached does not block a new attempt -/
+theorem c19_disconnect_then_start (s : State) : (step (step s .disconnect) .callStart).last = .ok := by
+  cases hc : s.conn with
+  | none => simp [step, hc]
+  | some q => cases q <;> simp [step, hc]
+
+example : (run {} [.callStart, .startOk, .disconnect, .callStart]).last = .ok := by decide
+example : (run {} [.callStart, .disconnect, .startFail, .callStart]).last = .ok := by decide
+
 end Esp.C19
